@@ -138,6 +138,10 @@ func Value(r *kit.Rng, s *schema.Node, o GenOpts) string {
 	case "enum":
 		return s.Enums[r.Intn(len(s.Enums))]
 	case "decimal64":
+		if o.Nasty && r.Chance(1, 3) {
+			// many significant digits (all exactly representable with 2 fraction digits as float64)
+			return r.Pick([]string{"1234.50", "123456789012.50", "16777217.25", "-99999999.75", "4503599627370.50", "0.25", "-0.50", "33554433.00"})
+		}
 		return fmt.Sprintf("%d.%02d", r.Range(1, 99), r.Intn(100))
 	}
 	return "x"
